@@ -17,6 +17,7 @@ using pgm::verif::Access;
 
 static Out *g_out;
 static long long g_x = 0;
+static std::string g_dir;
 
 template<typename K> K reserved() { return std::numeric_limits<K>::has_infinity ? std::numeric_limits<K>::infinity() : std::numeric_limits<K>::max(); }
 
@@ -25,7 +26,12 @@ template<typename K> std::vector<K> make_data(size_t n, size_t tail, Rng &rng) {
     std::vector<K> d;
     K cur = K(std::numeric_limits<K>::max() / 2);
     if constexpr (std::is_floating_point_v<K>) cur = K(100);
-    for (size_t i = 0; i + tail < n; ++i) { d.push_back(cur); cur = K(cur + K(rng.below(3))); }
+    for (size_t i = 0; i + tail < n; ++i) {
+        d.push_back(cur);
+        K step = K(rng.below(3));
+        if constexpr (std::is_integral_v<K>) { if (cur >= K(std::numeric_limits<K>::max() - 3)) step = 0; }   // stays below the reserved value
+        cur = K(cur + step);
+    }
     for (size_t i = 0; i < tail && d.size() < n; ++i) d.push_back(reserved<K>());
     return d;
 }
@@ -39,7 +45,10 @@ void try_static(const char *cls, size_t n, size_t tail, Rng &rng, Build &&build)
 }
 
 template<typename K> void static_family(Rng &rng) {
-    for (size_t n = 1; n <= 7; ++n)
+    // small sizes one by one, then sizes around the first-level segment counts and (for the wide types) the chunked build
+    std::vector<size_t> sizes{1, 2, 3, 4, 5, 6, 7, 33, 300};
+    if constexpr (sizeof(K) >= 4) sizes.push_back(40000);
+    for (size_t n : sizes)
         for (size_t tail = 0; tail <= std::min<size_t>(n, 3); ++tail) {
             try_static<K>("PGMIndex", n, tail, rng, [](const std::vector<K> &d) { pgm::PGMIndex<K, 2, 1> p(d.begin(), d.end()); (void) p; });
             try_static<K>("OneLevel", n, tail, rng, [](const std::vector<K> &d) { pgm::PGMIndex<K, 4, 0> p(d.begin(), d.end()); (void) p; });
@@ -47,6 +56,15 @@ template<typename K> void static_family(Rng &rng) {
                 try_static<K>("Compressed", n, tail, rng, [](const std::vector<K> &d) { pgm::CompressedPGMIndex<K, 2, 1> p(d.begin(), d.end()); (void) p; });
                 try_static<K>("Bucketing", n, tail, rng, [](const std::vector<K> &d) { pgm::BucketingPGMIndex<K, 2, 4, 0> p(d.begin(), d.end()); (void) p; });
                 if constexpr (sizeof(K) >= 2) try_static<K>("EliasFano", n, tail, rng, [](const std::vector<K> &d) { pgm::EliasFanoPGMIndex<K, 2> p(d.begin(), d.end()); (void) p; });
+            }
+            if constexpr (sizeof(K) >= 4 && std::is_integral_v<K>) {
+                // the disk-backed container: from a range, and from a raw key file
+                std::string f = g_dir + "/reject_mapped.bin", raw = g_dir + "/reject_raw.bin";
+                try_static<K>("Mapped", n, tail, rng, [&](const std::vector<K> &d) { pgm::MappedPGMIndex<K, 2, 1> p(d.begin(), d.end(), f); (void) p; });
+                try_static<K>("MappedRaw", n, tail, rng, [&](const std::vector<K> &d) {
+                    FILE *fp = fopen(raw.c_str(), "wb"); fwrite(d.data(), sizeof(K), d.size(), fp); fclose(fp);
+                    pgm::MappedPGMIndex<K, 2, 1> p(raw, f); (void) p; });
+                remove(f.c_str()); remove(raw.c_str());
             }
         }
 }
@@ -76,8 +94,8 @@ template<typename D> std::string layout_string(const D &d) {
 template<typename K, typename V>
 void dynamic_family(Rng &rng) {
     using D = pgm::DynamicPGMIndex<K, V, pgm::PGMIndex<K, 2, 1>>;
-    // (1) base: every value 2..40 and some larger ones
-    for (unsigned base : {2u, 3u, 4u, 5u, 6u, 7u, 8u, 9u, 10u, 12u, 15u, 16u, 17u, 24u, 31u, 32u, 33u, 48u, 64u, 65u, 96u, 100u, 127u, 128u, 129u, 200u, 255u}) {
+    // (1) base: every value 2..255
+    for (unsigned base = 2; base <= 255; ++base) {
         std::string o = outcome([&] { D d((uint8_t) base, uint8_t(1), uint8_t(2)); (void) d; });
         g_out->begin("Try").num("x", g_x++).str("op", "dynamic_base").num("base", base).str("out", o).end();
     }
@@ -92,6 +110,24 @@ void dynamic_family(Rng &rng) {
             for (auto &p : pairs) ks.push_back((long long) p.first);
             std::string o = outcome([&] { D d(pairs.begin(), pairs.end(), uint8_t(2), uint8_t(1), uint8_t(2)); (void) d; });
             g_out->begin("Try").num("x", g_x++).str("op", "dynamic_bulk").raw("keys", jarr(ks)).str("out", o).end();
+        }
+    // (2a) longer bulk loads (they span several levels of the container): one unsorted adjacent pair at a random position
+    for (size_t n : {12, 40, 130, 700})
+        for (int rep = 0; rep < 4; ++rep) {
+            std::vector<std::pair<K, V>> pairs;
+            std::vector<long long> ks;
+            K cur = 10;
+            for (size_t i = 0; i < n; ++i) { pairs.emplace_back(cur, V(i % 200 + 1)); cur = K(cur + K(1 + rng.below(3))); }
+            size_t bad = rep == 0 ? 0 : rep == 1 ? n - 1 : rep == 2 ? 1 : 1 + rng.below(n - 1);
+            if (bad) std::swap(pairs[bad - 1].first, pairs[bad].first);
+            for (auto &p : pairs) ks.push_back((long long) p.first);
+            std::string o = outcome([&] { D d(pairs.begin(), pairs.end(), uint8_t(2), uint8_t(1), uint8_t(2)); (void) d; });
+            g_out->begin("Try").num("x", g_x++).str("op", "dynamic_bulk").raw("keys", jarr(ks)).str("out", o).end();
+            // and the reserved mapped value at that position of the sorted range
+            if (bad) std::swap(pairs[bad - 1].first, pairs[bad].first);
+            if (bad) pairs[bad].second = std::numeric_limits<V>::max();
+            std::string o2 = outcome([&] { D d(pairs.begin(), pairs.end(), uint8_t(2), uint8_t(1), uint8_t(2)); (void) d; });
+            g_out->begin("Try").num("x", g_x++).str("op", "dynamic_bulk_value").num("n", (long long) n).num("reserved_at", bad ? (long long) bad : -1).str("out", o2).end();
         }
     // (2b) bulk load: the reserved mapped value at each position of a sorted range (and controls without it)
     for (size_t n = 1; n <= 6; ++n)
@@ -176,13 +212,34 @@ void pla_family(Rng &rng) {
                 }
                 g_out->begin("Try").num("x", g_x++).str("op", "pla_add_point").raw("xs", jarr(xs)).str("out", o).num("failed_at", failed_at).end();
             }
-    (void) rng;
+    // (3) the same with segment breaks: a zigzag that no line follows within epsilon 0 or 1; a point that is not accepted
+    //     starts the next segment (as make_segmentation does), and the key after it is again inside a segment
+    for (long long eps = 0; eps <= 1; ++eps)
+        for (size_t n = 3; n <= 9; ++n)
+            for (size_t bad = 0; bad < n; ++bad)
+                for (int dec = 0; dec < 2; ++dec) {
+                    std::vector<long long> xs;
+                    for (size_t i = 0; i < n; ++i) xs.push_back(10 + 3 * (long long) i + (long long) rng.below(2));
+                    if (bad) xs[bad] = xs[bad - 1] - dec;
+                    O opt((Y) eps);
+                    std::string o = "ok";
+                    long long failed_at = -1, breaks = 0;
+                    for (size_t i = 0; i < n && o == "ok"; ++i) {
+                        Y y = (Y) (i % 3 == 2 ? 40 + i : i % 3 == 1 ? 20 + i : i);
+                        bool fits = true;
+                        o = outcome([&] { fits = opt.add_point((X) xs[i], y); });
+                        if (o == "ok" && !fits) { ++breaks; (void) opt.get_segment(); o = outcome([&] { opt.add_point((X) xs[i], y); }); }
+                        if (o != "ok") failed_at = (long long) i;
+                    }
+                    g_out->begin("Try").num("x", g_x++).str("op", "pla_add_point").raw("xs", jarr(xs)).str("out", o).num("failed_at", failed_at).num("breaks", breaks).end();
+                }
 }
 
 int main(int argc, char **argv) {
     Args a(argc, argv);
     install_crash_handlers();
     std::string outdir = a.get("out", ".");
+    g_dir = outdir;
     Out out(outdir + "/reject.ndjson");
     open_outs().push_back(&out);
     g_out = &out;
